@@ -168,54 +168,59 @@ impl<'de> ReadEnv<'de> {
 
     /// What the record at `path` (with `n` stored entries) delivers, in order.
     fn delivery(&self, path: SmallPath, n: usize) -> Vec<Deliver> {
-        let mut order: Vec<Deliver> = (0..n as u8).map(Deliver::Orig).collect();
         if !path.valid() || self.faults.is_empty() {
-            return order;
+            return (0..n as u8).map(Deliver::Orig).collect();
         }
-        let p = path.as_slice();
         let mut st = self.st.borrow_mut();
-        // 1. reorder (last one addressed to this record wins)
-        for (fi, f) in self.faults.iter().enumerate() {
-            if let RFault::Reorder { path: fp, perm } = f {
-                if fp.as_slice() == p && is_perm(perm, n) {
-                    order = perm.iter().map(|&i| Deliver::Orig(i)).collect();
-                    st.applied[fi] = true;
-                }
-            }
-        }
-        // 2. drops
-        for (fi, f) in self.faults.iter().enumerate() {
-            if let RFault::Drop { path: fp, idx } = f {
-                if fp.as_slice() == p {
-                    let before = order.len();
-                    order.retain(|d| match d {
-                        Deliver::Orig(i) => !idx.contains(i),
-                        _ => true,
-                    });
-                    if order.len() != before {
-                        st.applied[fi] = true;
-                    }
-                }
-            }
-        }
-        // 3. splices, in plan order
-        for (fi, f) in self.faults.iter().enumerate() {
-            match f {
-                RFault::Unknown { path: fp, pos, .. } if fp.as_slice() == p => {
-                    let at = (*pos as usize).min(order.len());
-                    order.insert(at, Deliver::Unknown(fi as u8));
-                    st.applied[fi] = true;
-                }
-                RFault::Dup { path: fp, idx, pos } if fp.as_slice() == p && (*idx as usize) < n => {
-                    let at = (*pos as usize).min(order.len());
-                    order.insert(at, Deliver::Orig(*idx));
-                    st.applied[fi] = true;
-                }
-                _ => {}
-            }
-        }
-        order
+        delivery_order(self.faults, path.as_slice(), n, &mut st.applied)
     }
+}
+
+/// The delivery list of one record under a fault plan (shared by the event-level source and the
+/// JSON text emitter).
+pub fn delivery_order(faults: &[RFault], p: &[u8], n: usize, applied: &mut [bool]) -> Vec<Deliver> {
+    let mut order: Vec<Deliver> = (0..n as u8).map(Deliver::Orig).collect();
+    // 1. reorder (last one addressed to this record wins)
+    for (fi, f) in faults.iter().enumerate() {
+        if let RFault::Reorder { path: fp, perm } = f {
+            if fp.as_slice() == p && is_perm(perm, n) {
+                order = perm.iter().map(|&i| Deliver::Orig(i)).collect();
+                applied[fi] = true;
+            }
+        }
+    }
+    // 2. drops
+    for (fi, f) in faults.iter().enumerate() {
+        if let RFault::Drop { path: fp, idx } = f {
+            if fp.as_slice() == p {
+                let before = order.len();
+                order.retain(|d| match d {
+                    Deliver::Orig(i) => !idx.contains(i),
+                    _ => true,
+                });
+                if order.len() != before {
+                    applied[fi] = true;
+                }
+            }
+        }
+    }
+    // 3. splices, in plan order
+    for (fi, f) in faults.iter().enumerate() {
+        match f {
+            RFault::Unknown { path: fp, pos, .. } if fp.as_slice() == p => {
+                let at = (*pos as usize).min(order.len());
+                order.insert(at, Deliver::Unknown(fi as u8));
+                applied[fi] = true;
+            }
+            RFault::Dup { path: fp, idx, pos } if fp.as_slice() == p && (*idx as usize) < n => {
+                let at = (*pos as usize).min(order.len());
+                order.insert(at, Deliver::Orig(*idx));
+                applied[fi] = true;
+            }
+            _ => {}
+        }
+    }
+    order
 }
 
 fn is_perm(perm: &[u8], n: usize) -> bool {
